@@ -168,6 +168,110 @@ pub fn underpromotion_mate_position(rng: &mut Rng) -> Option<Pos> {
     Some(if rng.chance(1, 2) { mirror(&p) } else { p })
 }
 
+/// Stamma's mate and its relatives: the defending king in the corner behind its own rook pawn,
+/// the attacker has king and knight, both sides have a spare pawn or two for tempo moves. Mates
+/// exist, but only with the right side to move at the right moment (zugzwang) - the family in
+/// which a search that passes the move (null-move pruning) goes wrong if it trusts the result too
+/// much. Searched deeper than the other roots (the trees are tiny).
+pub fn stamma_position(rng: &mut Rng) -> Option<Pos> {
+    let mut p = Pos::empty();
+    let flip = rng.chance(1, 2);
+    let at = |f: i32, r: i32| sq_at(if flip { 7 - f } else { f }, r).unwrap();
+    p.sq[at(0, 0) as usize] = Some((Color::Black, Kind::King));
+    let pr = *rng.pick(&[2, 1, 2, 3]);
+    p.sq[at(0, pr) as usize] = Some((Color::Black, Kind::Pawn));
+    let (kf, kr) = *rng.pick(&[(2, 1), (2, 0), (3, 2), (3, 1), (2, 2), (3, 0), (1, 2)]);
+    if p.sq[at(kf, kr) as usize].is_some() {
+        return None;
+    }
+    p.sq[at(kf, kr) as usize] = Some((Color::White, Kind::King));
+    for _ in 0..10 {
+        let s = at(rng.below(6) as i32, rng.below(5) as i32);
+        if p.sq[s as usize].is_none() {
+            p.sq[s as usize] = Some((Color::White, Kind::Knight));
+            break;
+        }
+    }
+    // tempo pawns on the far side
+    for _ in 0..rng.below(3) {
+        let f = 3 + rng.below(5) as i32;
+        let br = 4 + rng.below(3) as i32;
+        let s = at(f, br);
+        if p.sq[s as usize].is_none() {
+            p.sq[s as usize] = Some((Color::Black, Kind::Pawn));
+            if rng.chance(2, 3) {
+                let wr = (br - 1 - rng.below(3) as i32).max(1);
+                let t = at(f, wr);
+                if p.sq[t as usize].is_none() {
+                    p.sq[t as usize] = Some((Color::White, Kind::Pawn));
+                }
+            }
+        }
+    }
+    p.stm = if rng.chance(2, 3) { Color::White } else { Color::Black };
+    let p = if rng.chance(1, 2) { mirror(&p) } else { p };
+    if is_legal_position(&p) && has_legal_move(&p) {
+        Some(p)
+    } else {
+        None
+    }
+}
+
+/// The corner-zugzwang family enumerated: defending king a1, its pawn on a2/a3/a4, attacking king
+/// on one of seven squares, knight on any free square of the a1-f5 block, and none or one pair of
+/// tempo pawns (black pawn on d-h 5-7, white pawn 1-3 squares in front of it), either side to
+/// move. `idx` runs over the whole product; None = not a legal position.
+pub fn stamma_family(idx: usize) -> Option<Pos> {
+    const KINGS: [(i32, i32); 7] = [(2, 1), (2, 0), (3, 2), (3, 1), (2, 2), (3, 0), (1, 2)];
+    let mut i = idx;
+    let mut take = |n: usize| -> usize {
+        let r = i % n;
+        i /= n;
+        r
+    };
+    let stm = take(2);
+    let pr = 1 + take(3) as i32;
+    let (kf, kr) = KINGS[take(7)];
+    let nsq = take(30);
+    let pair = take(46); // 0 = no tempo pawns, else file(5) x black rank(3) x gap(3)
+    if i != 0 {
+        return None;
+    }
+    let mut p = Pos::empty();
+    p.sq[sq_at(0, 0)? as usize] = Some((Color::Black, Kind::King));
+    p.sq[sq_at(0, pr)? as usize] = Some((Color::Black, Kind::Pawn));
+    let ks = sq_at(kf, kr)?;
+    if p.sq[ks as usize].is_some() {
+        return None;
+    }
+    p.sq[ks as usize] = Some((Color::White, Kind::King));
+    let ns = sq_at((nsq % 6) as i32, (nsq / 6) as i32)?;
+    if p.sq[ns as usize].is_some() {
+        return None;
+    }
+    p.sq[ns as usize] = Some((Color::White, Kind::Knight));
+    if pair > 0 {
+        let q = pair - 1;
+        let f = 3 + (q % 5) as i32;
+        let br = 4 + ((q / 5) % 3) as i32;
+        let gap = 1 + (q / 15) as i32;
+        let bs = sq_at(f, br)?;
+        let ws = sq_at(f, br - gap)?;
+        if br - gap < 1 || p.sq[bs as usize].is_some() || p.sq[ws as usize].is_some() {
+            return None;
+        }
+        p.sq[bs as usize] = Some((Color::Black, Kind::Pawn));
+        p.sq[ws as usize] = Some((Color::White, Kind::Pawn));
+    }
+    p.stm = if stm == 0 { Color::White } else { Color::Black };
+    if is_legal_position(&p) && has_legal_move(&p) {
+        Some(p)
+    } else {
+        None
+    }
+}
+pub const STAMMA_FAMILY_SIZE: usize = 2 * 3 * 7 * 30 * 46;
+
 const MATERIALS: &[(&[Kind], &[Kind])] = &[
     (&[Kind::Queen], &[]),
     (&[Kind::Rook], &[]),
@@ -416,7 +520,7 @@ pub fn check_root(root: &Root, classes: &[Class], depth: u8, h: &ZobristHasher, 
 
 pub fn run(tier: Tier, seed: u64) -> i32 {
     let mut run = Run::new("C11", tier, seed, "exploration");
-    run.rule = "evaluation = one real search (virtual clock, all iterations up to the limit complete) on a root near mate or stalemate, judged by the oracle's full-width mate solver: (1) mate-in-1 roots: the move standing after every completed iteration mates; (2) roots where some but not all moves allow a mate in one: the move standing after iterations 2 and 3 is not one of them; (3) every line `mate N`, 0<N<=3, requires a forced mate in <= N; `mate -N` on the last line of a completed depth requires mated-in-N; (4) a line reporting on a move that stalemates the opponent must not carry a mate score. Roots: sampled endgame families (KQK, KRK, KRRK, KBBK, KBNK, KQKR, pawn endings, ...) biased to edge/corner kings, sparse material with a cornered king hemmed in by its own men (minor piece against minor piece, pawn or rook: smothered and corner mates), mates in one that only an under-promotion gives, positions 1-5 plies before a checkmate in oracle-driven games with full material, the library's mate/stalemate entries. Black box: the same two clauses for the move PLAYED by the real binary under slices of 1-20 ms - a violation needs an info line of depth >= 2 (>= 3) whose own time field lies below the plan, i.e. the first (second) iteration had finished before the allowance ended. Non-trivial = root classified mate-in-1 / avoidable mate / mated soon / stalemate trap; distinct by (root FEN, depth limit)".into();
+    run.rule = "evaluation = one real search (virtual clock, all iterations up to the limit complete) on a root near mate or stalemate, judged by the oracle's full-width mate solver: (1) mate-in-1 roots: the move standing after every completed iteration mates; (2) roots where some but not all moves allow a mate in one: the move standing after iterations 2 and 3 is not one of them; (3) every line `mate N`, 0<N<=3, requires a forced mate in <= N; `mate -N` on the last line of a completed depth requires mated-in-N; (4) a line reporting on a move that stalemates the opponent must not carry a mate score. Roots: sampled endgame families (KQK, KRK, KRRK, KBBK, KBNK, KQKR, pawn endings, ...) biased to edge/corner kings, sparse material with a cornered king hemmed in by its own men (minor piece against minor piece, pawn or rook: smothered and corner mates), mates in one that only an under-promotion gives, zugzwang-prone corner endings (king behind its rook pawn against king and knight with tempo pawns, searched to depth 10), positions 1-5 plies before a checkmate in oracle-driven games with full material, the library's mate/stalemate entries. Black box: the same two clauses for the move PLAYED by the real binary under slices of 1-20 ms - a violation needs an info line of depth >= 2 (>= 3) whose own time field lies below the plan, i.e. the first (second) iteration had finished before the allowance ended. Non-trivial = root classified mate-in-1 / avoidable mate / mated soon / stalemate trap; distinct by (root FEN, depth limit)".into();
     run.assumptions = vec![
         "negative mate claims are judged only on the last line of a completed depth (intermediate lines describe the first move tried, not the position)".into(),
         "claims with |N| > 3 or beyond the solver's node budget are counted as unchecked, not decided".into(),
@@ -480,6 +584,37 @@ pub fn run(tier: Tier, seed: u64) -> i32 {
                 let p = Pos::parse_fen(fen).unwrap();
                 let cl = classify(&p);
                 roots.push((p, cl));
+            }
+        }
+        // zugzwang-prone corner endings, searched to depth 10
+        let mut deep: Vec<Pos> = Vec::new();
+        for _ in 0..200 {
+            if deep.len() >= 2 {
+                break;
+            }
+            if let Some(p) = stamma_position(&mut rng) {
+                deep.push(p);
+            }
+        }
+        // the enumerated family: a slice of it per job (thorough: all of it, quick: every 48th member)
+        {
+            let step = if tier == Tier::Quick { 48 } else { 1 };
+            let per_job = STAMMA_FAMILY_SIZE / n_jobs + 1;
+            let from = j * per_job;
+            let mut k = from + (seed as usize % step);
+            while k < (from + per_job).min(STAMMA_FAMILY_SIZE) {
+                if let Some(p) = stamma_family(k) {
+                    deep.push(p);
+                }
+                k += step;
+            }
+        }
+        for p in deep {
+            let cl = classify(&p);
+            let hist = History { start: p.clone(), moves: vec![], end: p };
+            if let Ok(root) = make_root(hist, &h) {
+                acc.count("corner_zugzwang_roots_searched_to_depth_10", 1);
+                check_root(&root, &cl, 10, &h, &mut acc, false);
             }
         }
         for (i, (p, cl)) in roots.into_iter().enumerate() {
